@@ -43,6 +43,7 @@ MIN_REACH = {
     "cases_reaped_through_a_handle_older_than_the_sow": {"quick": 8, "thorough": 80},
     "crops_whose_batch_files_are_newer_than_the_results": {"quick": 10, "thorough": 100},
     "crops_whose_path_contains_pattern_characters": {"quick": 8, "thorough": 80},
+    "cases_reaped_through_the_object_that_reaped_an_earlier_crop": {"quick": 5, "thorough": 60},
     "partial_reaps_of_a_harvester_crop_without_sync": {"quick": 8, "thorough": 100},
 }
 TIME_BUDGET = {"quick": 400, "thorough": 3400}
@@ -161,6 +162,7 @@ def run_case(ctx, case):
         else:
             shuffle_at_sow = case["shuffle"]
     var_names, var_dims, var_coords = _descr(kind)
+    pc = None
     if case["idx"] % 3 == 1:
         # second use of the same location in one process: an earlier crop of the same name, whose function returned a
         # DIFFERENT kind of result, was partially reaped, finished, reaped and thereby deleted
@@ -185,6 +187,11 @@ def run_case(ctx, case):
         with quiet():
             early = xyzpy.Crop(name=name, parent_dir=tmp)
         ctx.count("cases_reaped_through_a_handle_older_than_the_sow")
+    elif form not in ("runner_ds", "harvester_ds") and pc is not None and case["idx"] % 2 == 1:
+        # ... or the very object that partially reaped the EARLIER crop at this place (whose results were of another kind):
+        # what it learnt about that crop's missing-result stand-in must not leak into this one
+        early = pc
+        ctx.count("cases_reaped_through_the_object_that_reaped_an_earlier_crop")
     try:
         with quiet():
             if form in ("runner_ds", "harvester_ds"):
@@ -312,7 +319,6 @@ def run_case(ctx, case):
                 c = xyzpy.Crop(name=name, parent_dir=tmp) if form not in ("runner_ds", "harvester_ds") else crop
                 if early is not None:
                     c = early
-                c._all_nan_result = None
                 racing = form == "harvester_ds" and (case["idx"] + len(S)) % 2 == 0
                 if racing:
                     # another worker finishes every remaining batch while the partial results are being merged: what was
